@@ -48,6 +48,7 @@ def generate(cfgname, module="MC_TransferOpen", workers=8):
 WORKER = {"mc": "MC_TransferOpen", "bin": "wsim", "sub": "replay", "trace": "Trace_Transfer",
           "args": ["--jobs", "16", "--workdir", os.path.join(C.WORK, "sim")]}
 CODEC = {"mc": "MC_Codec", "bin": "pure", "sub": "codec", "trace": "Trace_Codec", "args": []}
+CLI = {"mc": "MC_Cli", "bin": "pure", "sub": "cli", "trace": "Trace_Cli", "args": []}
 WINDOW = {"mc": "MC_Window", "bin": "pure", "sub": "window", "trace": "Trace_Window", "args": []}
 
 
